@@ -1107,10 +1107,26 @@ func (se *SpecEnv) callPred(p *Pred, argExprs []Expr) T {
 		}
 		nb[prm.Name] = a
 	}
-	sub := &SpecEnv{c: se.c, st: se.st, vars: nb, pkg: p.Pkg, old: se.old, snapOnly: se.snapOnly, inOld: se.inOld, fr: nil, bound: se.bound, nested: true, noFacts: se.noFacts, pol: se.pol}
+	sub := &SpecEnv{c: se.c, st: se.st, vars: nb, pkg: p.Pkg, old: se.old, snapOnly: se.snapOnly, inOld: se.inOld, fr: nil, bound: unshadow(se.bound, nb), nested: true, noFacts: se.noFacts, pol: se.pol}
 	r := T{S: sub.evalBool(p.Body), So: "Bool"}
 	se.facts = append(se.facts, sub.facts...)
 	return r
+}
+
+// unshadow: the quantifier-bound variables visible inside the body of a spec function or predicate,
+// i.e. those of the caller that the callee's own parameters do not shadow (without this a parameter
+// named like a bound variable of the calling formula was captured by it).
+func unshadow(bound map[string]T, params map[string]T) map[string]T {
+	if len(bound) == 0 {
+		return bound
+	}
+	out := map[string]T{}
+	for k, v := range bound {
+		if _, shadowed := params[k]; !shadowed {
+			out[k] = v
+		}
+	}
+	return out
 }
 
 func (se *SpecEnv) callPure(pf *PureFunc, args []T) T {
@@ -1128,7 +1144,7 @@ func (se *SpecEnv) callPure(pf *PureFunc, args []T) T {
 			}
 			nb[prm.Name] = a
 		}
-		sub := &SpecEnv{c: se.c, st: se.st, vars: nb, pkg: pf.Pkg, old: se.old, snapOnly: se.snapOnly, inOld: se.inOld, bound: se.bound, nested: true, noFacts: se.noFacts, pol: se.pol}
+		sub := &SpecEnv{c: se.c, st: se.st, vars: nb, pkg: pf.Pkg, old: se.old, snapOnly: se.snapOnly, inOld: se.inOld, bound: unshadow(se.bound, nb), nested: true, noFacts: se.noFacts, pol: se.pol}
 		t := sub.eval(pf.Body)
 		se.facts = append(se.facts, sub.facts...)
 		t.Ty = rty
